@@ -182,3 +182,11 @@ package poseidon
 //@   ensures len(res) == 5
 //@   ensures forall(k, 0, 4, 0 <= res[k].Limb && res[k].Limb < pow2(56)) && 0 <= res[4].Limb && res[4].Limb < pow2(30)
 //@   ensures hash == res[0].Limb + res[1].Limb * pow2(56) + res[2].Limb * pow2(112) + res[3].Limb * pow2(168) + res[4].Limb * pow2(224)
+
+// Injectivity facts of the conversions (pure linear arithmetic).
+//@ lemma bn_pack3_injective(a0, a1, a2, b0, b1, b2) = implies(0 <= a0 && a0 < pow2(64) && 0 <= a1 && a1 < pow2(64) && 0 <= a2 && a2 < pow2(64) && 0 <= b0 && b0 < pow2(64) && 0 <= b1 && b1 < pow2(64) && 0 <= b2 && b2 < pow2(64) && a0 + a1 * pow2(64) + a2 * pow2(128) == b0 + b1 * pow2(64) + b2 * pow2(128), a0 == b0 && a1 == b1 && a2 == b2)
+//@   props C10
+//@ lemma bn_pack3_no_wrap(a0, a1, a2) = implies(0 <= a0 && a0 < pow2(64) && 0 <= a1 && a1 < pow2(64) && 0 <= a2 && a2 < pow2(64), a0 + a1 * pow2(64) + a2 * pow2(128) < R)
+//@   props C10
+//@ lemma bn_chunk56_injective(a0, a1, a2, a3, a4, b0, b1, b2, b3, b4) = implies(0 <= a0 && a0 < pow2(56) && 0 <= a1 && a1 < pow2(56) && 0 <= a2 && a2 < pow2(56) && 0 <= a3 && a3 < pow2(56) && 0 <= a4 && a4 < pow2(30) && 0 <= b0 && b0 < pow2(56) && 0 <= b1 && b1 < pow2(56) && 0 <= b2 && b2 < pow2(56) && 0 <= b3 && b3 < pow2(56) && 0 <= b4 && b4 < pow2(30) && a0 + a1 * pow2(56) + a2 * pow2(112) + a3 * pow2(168) + a4 * pow2(224) == b0 + b1 * pow2(56) + b2 * pow2(112) + b3 * pow2(168) + b4 * pow2(224), a0 == b0 && a1 == b1 && a2 == b2 && a3 == b3 && a4 == b4)
+//@   props C10
